@@ -509,6 +509,98 @@ def run_r6(ctx, rule):
     rule.note("fold_paths", n_paths)
 
 
+# ---- R7 -----------------------------------------------------------------------------------------
+def run_r7(ctx, rule):
+    """two numberings live side by side in transfer, with the same type: literals of the source circuit (the requested
+    `lit`, a definition's `output`, its `inputs` as long as they have not been replaced) and literals of the renumbered
+    circuit (`transferred`, what the map returns, an input slot after `inputs[i] = transferred`).  Comparing one with
+    the other, descending into a renumbered literal, or keying the map with one is meaningless.  Decided with a
+    flow-sensitive tag per expression (slot stores by dominance); untagged expressions are not judged."""
+    facts = ctx.facts
+    f = afn(facts, "Renumber::transfer")
+    sy = sym(f)
+    c = cfg(f)
+    from . import table
+
+    # stores  D.inputs[i] = X
+    slot_stores = []
+    for bi, b in enumerate(f.blocks):
+        if b["cleanup"]:
+            continue
+        for si, s_ in enumerate(b["stmts"]):
+            if s_["k"] != "assign":
+                continue
+            pr = s_["lhs"]["p"]
+            if len(pr) == 2 and isinstance(pr[0], dict) and pr[0].get("name") == "inputs" and isinstance(pr[1], dict) and ("cidx" in pr[1] or "index" in pr[1]):
+                idx = pr[1].get("cidx")
+                if idx is None:
+                    iv = sy.local(pr[1]["index"], 1)
+                    idx = iv[1] if iv[0] == "c" else None
+                slot_stores.append((bi, s_["lhs"]["l"], idx, sy.operand(s_["rv"]["a"]) if s_["rv"]["k"] == "use" else sy.rvalue(s_["rv"])))
+
+    def tag(e, bb, depth=0):
+        if depth > 4:
+            return None
+        if e[0] == "l":
+            o = sy.origin(e)
+            if o != e:
+                return tag(o, bb, depth + 1)
+            return None
+        if e[0] == "f" and e[2] == "transferred":
+            return "new"
+        if e[0] == "f" and e[2] in ("lit", "output"):
+            return "old"
+        if e[0] == "idx" and e[1][0] == "f" and e[1][2] == "inputs" and e[2][0] == "c":
+            base = e[1][1]
+            # replaced in this arm?
+            for sb, dl, idx, val in slot_stores:
+                if idx == e[2][1] and base == ("l", dl) and (c.dominates(sb, bb)) and tag(val, sb, depth + 1) == "new":
+                    return "new"
+            ctxv = table.variant_context(facts, f, bb)
+            if ("State", "Input1") in ctxv and e[2][1] == 0:
+                return "new"  # replaced in the Input0 arm and carried here by Continuation::Input1 (checked below)
+            if any(v in ctxv for v in (("State", "Input0"), ("State", "Input1"), ("State", "Transfer"))):
+                return "old"
+            return None
+        if e[0] == "f" and e[1][0] == "v" and e[1][2] == "Some" and e[1][1][0] == "call" and norm(e[1][1][2]).endswith("LitMap::get"):
+            return "new"
+        return None
+
+    n = 0
+    for bb, t in f.calls():
+        cn = norm(util.cname(t))
+        d = norm(t["callee"].get("def", ""))
+        if d in ("core::cmp::PartialEq::eq", "core::cmp::PartialEq::ne") and len(t["args"]) == 2:
+            a, b2 = sy.operand(t["args"][0]), sy.operand(t["args"][1])
+            ta, tb = tag(a, bb), tag(b2, bb)
+            if ta and tb:
+                n += 1
+                rule.check(ta == tb, "numbering/compare/%d" % n, "literals compared in transfer belong to the same numbering (%s is %s, %s is %s)" % (sy.show(a)[:30], ta, sy.show(b2)[:30], tb), f.loc(bb))
+        if cn.endswith("LitMap::insert") and len(t["args"]) == 3:
+            tk, tv = tag(sy.operand(t["args"][1]), bb), tag(sy.operand(t["args"][2]), bb)
+            if tk:
+                n += 1
+                rule.check(tk == "old" and tv in (None, "new"), "numbering/insert/%d" % n, "lit_map is keyed by a source literal and stores a renumbered one (key %s, value %s)" % (tk, tv), f.loc(bb))
+    # descending: State::Transfer { lit } always gets a source literal; Continuation::Input1 is built only after slot 0 was replaced
+    for f2, bi, si, rv in util.aggregates(facts, lambda a: a in (AIG + "State", AIG + "Continuation")):
+        if f2 is not f:
+            continue
+        if rv["adt"].endswith("State") and rv["variant"] == "Transfer":
+            tg = tag(sy.operand(rv["ops"][0]), bi)
+            if tg:
+                n += 1
+                rule.check(tg == "old", "numbering/descend/%d" % n, "the traversal descends into a literal of the source circuit (got a %s one)" % tg, f.loc(bi))
+        if rv["adt"].endswith("Continuation") and rv["variant"] == "Input1":
+            names = rv.get("fields") or []
+            if "def" in names:
+                dexp = sy.operand(rv["ops"][names.index("def")])
+                ok = dexp[0] == "l" and any(dl == dexp[1] and idx == 0 and c.dominates(sb, bi) and tag(val, sb) == "new" for sb, dl, idx, val in slot_stores)
+                n += 1
+                rule.check(ok, "numbering/continuation-input1", "Continuation::Input1 carries a definition whose first input has been replaced by its renumbered literal", f.loc(bi))
+    if n < 4:
+        rule.bad("numbering/sites", "only %d tagged sites found in transfer (at least 4 counted: cycle test, two map inserts, descents)" % n, kind="anchor-missing")
+
+
 def run(ctx):
     r1 = ctx.rule("C12-R1", "the renumbering code is not recursive (explicit stack)", floor=2)
     run_r1(ctx, r1)
@@ -520,6 +612,8 @@ def run(ctx):
     run_r4(ctx, r4)
     r5 = ctx.rule("C12-R5", "polarity discipline of LitMap and transfer", floor=8)
     run_r5(ctx, r5)
+    r7 = ctx.rule("C12-R7", "source-circuit literals and renumbered literals are never compared, and each is used where its numbering is meant", floor=4)
+    run_r7(ctx, r7)
     r6 = ctx.rule("C12-R6", "every constant fold is an identity of AND (each decision path checked over the six representative codes)", floor=5)
     run_r6(ctx, r6)
     ctx.assume("Boolean equivalence of the renumbered circuit as a whole, hash-consing and completeness of the cycle detection are value-level and NOT decided (the const-fold case analysis is decided by C12-R6)")
